@@ -29,6 +29,12 @@
   under subdivision, RADIAL grids (`calculateCylindricalCellVol`, the radial branch of
   `getCellVolume`, additivity and the annulus total), GRIDUNIT rescaling (volumes scale with the
   cube), `MapAxes::transform` / `inv_transform` as mutually inverse maps.
+
+  Fourth round (`Model/GridTops.lean`): `createTOPSVector` (TOPS given for any number of layers:
+  first layer kept, layers beyond the input stacked bit for bit, given layers snapped to the stack
+  within the tolerance and kept otherwise; fixed point; what the geometry makes of it),
+  numerical-aquifer cells (forced ACTNUM = 1 inside `resetACTNUM(const int*)`, AQUNUM depth
+  override of `getCellDepth`), `getCellAndBottomCenterNormal`.
 -/
 import OpmVerif.Proofs.Grid
 import OpmVerif.Proofs.GridEgrid
@@ -36,6 +42,7 @@ import OpmVerif.Proofs.GridState
 import OpmVerif.Proofs.GridPos
 import OpmVerif.Proofs.GridFixup
 import OpmVerif.Proofs.GridExt
+import OpmVerif.Proofs.GridTops
 import OpmVerif.Props.C07
 
 namespace OpmVerif.Props.C13
@@ -750,5 +757,254 @@ example :
     let m := MapAxes.init (1 : ℚ) 10 25 10 20 13 20 3 5
     m.transform 2 7 = (12, 27) ∧ m.invTransform 12 27 = (2, 7) := by
   decide +kernel
+
+/-! ## Fourth round: TOPS for more than one layer, numerical-aquifer cells, bottom-face normal -/
+
+section TopsThms
+open OpmVerif.GridTops
+variable {α : Type} [Add α] [Sub α] [LT α] [DecidableLT α]
+
+/-- **`createTOPSVector`, layer by layer** — every `abs`, every tolerance, every number `n0` of TOPS
+values in the deck, every DZ, every grid size with `nx, ny ≥ 1` (`A = nx·ny`):
+fewer than `A` values ⇒ throws; otherwise the result `T` satisfies
+(1) first layer: `T[t]` is the input value;
+(2) **layers for which no TOPS was given are contiguous**: `T[t] = T[t-A] + DZ[t-A]` (top of layer
+`k+1` = bottom of layer `k`, the same double);
+(3) layers for which TOPS was given: either the bottom of the layer above is closer than the
+tolerance to the given value and replaces it (contiguous, the same double), or the given value is
+kept exactly. -/
+theorem tops_vector_layers (abs : α → α) (tol : α) (d : Dims) (n0 : Nat) (dz inp : Nat → α)
+    (hx : 0 < d.nx) (hy : 0 < d.ny) :
+    (n0 < d.nx * d.ny → createTOPS abs tol d n0 dz inp = none) ∧
+    (d.nx * d.ny ≤ n0 → ∃ T, createTOPS abs tol d n0 dz inp = some T ∧
+      (∀ t, t < d.nx * d.ny → T t = inp t) ∧
+      (∀ t, d.nx * d.ny ≤ t → n0 ≤ t → T t = T (t - d.nx * d.ny) + dz (t - d.nx * d.ny)) ∧
+      (∀ t, d.nx * d.ny ≤ t → t < n0 →
+        (abs (T (t - d.nx * d.ny) + dz (t - d.nx * d.ny) - inp t) < tol ∧
+          T t = T (t - d.nx * d.ny) + dz (t - d.nx * d.ny)) ∨
+        (¬ abs (T (t - d.nx * d.ny) + dz (t - d.nx * d.ny) - inp t) < tol ∧ T t = inp t))) := by
+  have ha : 0 < d.nx * d.ny := Nat.mul_pos hx hy
+  refine ⟨fun h => by unfold createTOPS; rw [if_pos h], fun h => ⟨_, by unfold createTOPS; rw [if_neg (by omega)], ?_, ?_, ?_⟩⟩
+  · exact fun t ht => topsEntry_first abs tol _ n0 dz inp ht
+  · exact fun t ht hn => topsEntry_stacked abs tol _ n0 dz inp ha ht hn
+  · exact fun t ht hn => topsEntry_given abs tol _ n0 dz inp ha ht hn
+
+/-- **The result is a fixed point**: written back as a complete TOPS keyword (or any longer one),
+`createTOPSVector` returns it unchanged — every entry of the `nz` layers. -/
+theorem tops_vector_fixed_point (abs : α → α) (tol : α) (d : Dims) (n0 n0' : Nat) (dz inp : Nat → α)
+    (hx : 0 < d.nx) (hy : 0 < d.ny) (hcov : d.nx * d.ny * d.nz ≤ n0') {t : Nat}
+    (ht : t < d.nx * d.ny * d.nz) :
+    topsEntry abs tol (d.nx * d.ny) n0' dz (topsEntry abs tol (d.nx * d.ny) n0 dz inp) t =
+      topsEntry abs tol (d.nx * d.ny) n0 dz inp t :=
+  topsEntry_idem abs tol _ n0 dz inp n0' d.nz (Nat.mul_pos hx hy) hcov ht
+
+/-- **What the geometry reads** (the code as it is): the ZCORN `makeZcornDzTops` builds from the
+vector returned by `createTOPSVector` is that of the input's first layer stacked with DZ, whatever
+was given for the lower layers. -/
+theorem tops_geometry_reads_first_layer (abs : α → α) (tol : α) (d : Dims) (n0 : Nat) (dz inp : Nat → α)
+    {i j : Nat} (hi : i < d.nx) (hj : j < d.ny) (k c : Nat) :
+    zcornCellDTops d dz (topsEntry abs tol (d.nx * d.ny) n0 dz inp) i j k c =
+      zcornCellDTops d dz inp i j k c :=
+  zcornCell_of_created abs tol n0 dz inp d hi hj k c
+
+/-- **Whichever layers `makeZcornDzTops` reads** (`Gen/GridTops.lean`, regenerated from the working
+tree: the first layer only — the tree as found — or every layer — the candidate patch of finding
+11): when the column has no given gap / overlap of the tolerance or more, the ZCORN corner built
+from the created vector is the first-layer stack of the input. -/
+theorem tops_geometry_gap_free (m : Gen.GridTops.TopsLayers) (abs : α → α) (tol : α) (d : Dims) (n0 : Nat)
+    (dz inp : Nat → α) {i j : Nat} (hi : i < d.nx) (hj : j < d.ny)
+    (hstack : ∀ k, i + j * d.nx + (k + 1) * (d.nx * d.ny) < n0 →
+      abs (zTopsAt d dz inp i j k + dz (i + j * d.nx + k * d.nx * d.ny) -
+        inp (i + j * d.nx + (k + 1) * (d.nx * d.ny))) < tol) (k c : Nat) :
+    zcornCellOf m d dz (topsEntry abs tol (d.nx * d.ny) n0 dz inp) i j k c =
+      zcornCellDTops d dz inp i j k c := by
+  cases m
+  · exact zcornCell_of_created abs tol n0 dz inp d hi hj k c
+  · exact zcornCellFull_eq_stack abs tol n0 dz inp d hi hj hstack k c
+
+/-- With the every-layer reading the top of every cell *is* its TOPS-vector entry and the bottom
+is that entry plus DZ — gaps kept by `createTOPSVector` reach the geometry. -/
+theorem tops_geometry_every_layer (d : Dims) (dz T : Nat → α) (i j k : Nat) :
+    zcornCellOf .everyLayer d dz T i j k 0 = T (i + j * d.nx + k * d.nx * d.ny) ∧
+    zcornCellOf .everyLayer d dz T i j k 4 =
+      T (i + j * d.nx + k * d.nx * d.ny) + dz (i + j * d.nx + k * d.nx * d.ny) :=
+  ⟨rfl, rfl⟩
+
+end TopsThms
+
+/-- Non-vacuity and witness of the recorded observation (ℤ, tolerance 1): one column of three
+layers, DZ = 2, TOPS `10 12 20`: layer 2 is snapped/contiguous (12 = 10 + 2), layer 3 keeps its
+gap in the TOPS vector (20, not 14) — but the ZCORN built from that vector puts the top of layer 3
+at 14: the retained gap does not reach the geometry. -/
+example :
+    let inp : Nat → Int := fun t => [10, 12, 20].getD t 0
+    let T := GridTops.topsEntry (fun x : Int => if x < 0 then -x else x) 1 1 3 (fun _ => 2) inp
+    (T 0, T 1, T 2) = (10, 12, 20) ∧
+    zcornCellDTops ⟨1, 1, 3⟩ (fun _ => 2) T 0 0 2 0 = 14 ∧
+    GridTops.zcornCellOf .everyLayer ⟨1, 1, 3⟩ (fun _ => 2) T 0 0 2 0 = 20 := by
+  decide
+
+/-- Only two of three layers given, the second 3 below the stack: kept; the third is stacked on it. -/
+example :
+    let inp : Nat → Int := fun t => [10, 15].getD t 0
+    let T := GridTops.topsEntry (fun x : Int => if x < 0 then -x else x) 1 1 2 (fun _ => 2) inp
+    (T 0, T 1, T 2) = (10, 15, 17) := by
+  decide
+
+section TopsField
+open OpmVerif.GridTops
+variable {K : Type} [Field K] [LinearOrder K] [IsStrictOrderedRing K]
+
+/-- **Given TOPS are honoured**: every entry for which a value was given differs from it by less
+than the tolerance (ordered field, `abs = |·|`, `tol > 0`). -/
+theorem tops_given_honoured (tol : K) (htol : 0 < tol) (d : Dims) (n0 : Nat) (dz inp : Nat → K)
+    (hx : 0 < d.nx) (hy : 0 < d.ny) {t : Nat} (hn : t < n0) :
+    |topsEntry (fun x => |x|) tol (d.nx * d.ny) n0 dz inp t - inp t| < tol :=
+  topsEntry_near_input tol htol _ n0 dz inp (Nat.mul_pos hx hy) hn
+
+/-- **The grid of a DX/DY/DZ/TOPS deck with TOPS for any number of layers** (DX depending on `i`,
+DY on `j`): cell `(i,j,k)` read back through the real corner arithmetic from the arrays of
+`initDTOPSGrid` (`createTOPSVector` → `makeCoordDxDyDzTops` / `makeZcornDzTops`) is the box with
+top `tops_{ij} + Σ_{k'<k} dz`; and when the column has no given gap / overlap of `tol` or more,
+that top *is* the TOPS-vector entry of the cell, within `tol` of the given value: given TOPS are
+honoured by the geometry, stacked layers are contiguous. -/
+theorem tops_deck_geometry (tol : K) (htol : 0 < tol) (d : Dims) (n0 : Nat) {dx dy dxv dyv : Nat → K}
+    (dz inp : Nat → K) (hx : 0 < d.nx) (hy : 0 < d.ny) (hz : 0 < d.nz) (hdx : DependsOnI d dx dxv)
+    (hdy : DependsOnJ d dy dyv) {i j k : Nat} (hi : i < d.nx) (hj : j < d.ny) :
+    let T := topsEntry (fun x => |x|) tol (d.nx * d.ny) n0 dz inp
+    IsBox (cellCorners d (coordDTops d dx dy dz T) (zcornDTops d dz T) i j k)
+      (runSum dxv i) (dxv i) (runSum dyv j) (dyv j)
+      (zTopsAt d dz inp i j k) (dz (i + j * d.nx + k * d.nx * d.ny)) ∧
+    ((∀ k', i + j * d.nx + (k' + 1) * (d.nx * d.ny) < n0 →
+        |zTopsAt d dz inp i j k' + dz (i + j * d.nx + k' * d.nx * d.ny) -
+          inp (i + j * d.nx + (k' + 1) * (d.nx * d.ny))| < tol) →
+      zTopsAt d dz inp i j k = T (i + j * d.nx + k * (d.nx * d.ny)) ∧
+      (i + j * d.nx + k * (d.nx * d.ny) < n0 →
+        |T (i + j * d.nx + k * (d.nx * d.ny)) - inp (i + j * d.nx + k * (d.nx * d.ny))| < tol)) :=
+  ⟨tops_deck_cell_is_box tol d n0 dz inp hx hy hz hdx hdy hi hj,
+   fun hs => tops_deck_top_is_tops_entry tol htol d n0 dz inp hi hj hs k⟩
+
+end TopsField
+
+/-- Non-vacuity over ℚ: 1×1×2, DZ = 1, TOPS `1000 1001.0000005` (tolerance 10⁻⁶): honoured within
+the tolerance, and snapped to the stack. -/
+example :
+    let inp : Nat → ℚ := fun t => [1000, 1001 + 5 / 10000000].getD t 0
+    GridTops.topsEntry (fun x : ℚ => |x|) (1 / 1000000) 1 2 (fun _ => 1) inp 1 = 1001 := by
+  simp [GridTops.topsEntry, GridTops.topsAt, GridTops.topsStep]
+  norm_num [abs_lt]
+
+/-! ### Numerical-aquifer cells -/
+
+section Aquifer
+open OpmVerif.GridTops
+
+/-- **Aquifer cells are active whatever the mask**: after `resetACTNUM(mask)` on an object whose
+deck named the cells `aq` in AQUNUM, every such cell has ACTNUM 1, an active index, and the active
+index maps back to it — every mask, every set of aquifer cells. -/
+theorem aquifer_cells_forced_active (aq : List Nat) (mask : List Int) {g : Nat} (hg : g < mask.length)
+    (hq : g ∈ aq) :
+    (forceAq aq 0 mask)[g]? = some 1 ∧
+    ∃ a, activeIndex (resetACTNUMAq aq mask) g = some a ∧ a < (resetACTNUMAq aq mask).nactive ∧
+      globalOfActive (resetACTNUMAq aq mask) a = some g :=
+  aquifer_cell_active aq mask hg hq
+
+/-- **All other cells follow the mask** (value kept; active iff `> 0`). -/
+theorem aquifer_other_cells_follow_mask (aq : List Nat) (mask : List Int) {g : Nat} {v : Int}
+    (hv : mask[g]? = some v) (hq : g ∉ aq) :
+    (forceAq aq 0 mask)[g]? = some v ∧
+    (v > 0 → ∃ a, activeIndex (resetACTNUMAq aq mask) g = some a) ∧
+    (¬ v > 0 → activeIndex (resetACTNUMAq aq mask) g = none) :=
+  non_aquifer_cell aq mask hv hq
+
+/-- The forcing keeps the length, is idempotent (a second `resetACTNUM` with the stored ACTNUM
+changes nothing), never lowers the number of active cells, is the identity without AQUNUM, and the
+resulting maps are those of the plain `resetACTNUM` loop on the forced mask — so every index
+theorem of the first three rounds (`active_global_bijection`, …) applies to them. -/
+theorem aquifer_forcing_laws (aq : List Nat) (mask : List Int) :
+    (forceAq aq 0 mask).length = mask.length ∧
+    forceAq aq 0 (forceAq aq 0 mask) = forceAq aq 0 mask ∧
+    (resetACTNUM mask).nactive ≤ (resetACTNUMAq aq mask).nactive ∧
+    forceAq [] 0 mask = mask ∧
+    resetACTNUMAq aq mask = resetACTNUM (forceAq aq 0 mask) :=
+  ⟨forceAq_length aq 0 mask, forceAq_idem aq 0 mask, nactive_forceAq_ge aq mask, forceAq_nil 0 mask, rfl⟩
+
+/-- **Depth override**: `getCellDepth(g)` is the geometric depth for every cell that is not named
+in AQUNUM and for every aquifer cell whose records all default DEPTH; it is `v` when a record
+`(g, v)` is not followed by another record of `g` with an explicit DEPTH (later records with a
+defaulted DEPTH do not remove the override). -/
+theorem aquifer_depth_override {α : Type} (geom : Nat → α) :
+    (∀ rs : List (AquRecord α), ∀ g, g ∉ aquCells rs → cellDepthAq rs geom g = geom g) ∧
+    (∀ rs : List (AquRecord α), ∀ g, (∀ r ∈ rs, r.cell = g → r.depth = none) → cellDepthAq rs geom g = geom g) ∧
+    (∀ (rs₁ rs₂ : List (AquRecord α)) (g : Nat) (v : α), (∀ r ∈ rs₂, r.cell = g → r.depth = none) →
+      cellDepthAq (rs₁ ++ ⟨g, some v⟩ :: rs₂) geom g = v) :=
+  ⟨fun rs _ h => cellDepthAq_not_aquifer rs geom h, fun rs _ h => cellDepthAq_no_depth rs geom h,
+   fun rs₁ rs₂ g v h => by unfold cellDepthAq; rw [aquDepth_last rs₁ rs₂ g v h]⟩
+
+end Aquifer
+
+/-- Non-vacuity: cells 0 and 3 are aquifer cells, the mask deactivates everything but cell 2;
+cell 0 has two explicit depths (the later one wins) followed by a defaulted one. -/
+example :
+    GridTops.forceAq [0, 3] 0 [0, 0, 5, 0, -1] = [1, 0, 5, 1, -1] ∧
+    (GridTops.resetACTNUMAq [0, 3] [0, 0, 5, 0, -1]).a2g = [0, 2, 3] ∧
+    (let rs : List (GridTops.AquRecord Int) := [⟨0, some 7⟩, ⟨3, none⟩, ⟨0, some 9⟩, ⟨0, none⟩]
+     (List.range 5).map (GridTops.cellDepthAq rs (fun g => 100 + g)) = [9, 101, 102, 103, 104]) := by
+  decide
+
+/-! ### getCellAndBottomCenterNormal -/
+
+section BottomNormal
+open OpmVerif.GridTops
+variable {K : Type} [Field K] [CharZero K]
+
+/-- **The bottom-face normal of `getCellAndBottomCenterNormal`** for arbitrary corners (planar or
+not) is half the cross product of the face diagonals, `½ (P₇ − P₄) × (P₆ − P₅)` — the area vector
+of the quadrilateral 4-5-7-6, independent of the centre point the four triangles are hung on. -/
+theorem bottom_normal_is_half_diagonal_cross (c : Corners K) :
+    (bottomCenterNormal (1 / 2 : K) c).2.2 =
+      ((1 / 2 : K) * (cross (vsub (cornerPt c 7) (cornerPt c 4)) (vsub (cornerPt c 6) (cornerPt c 5))).1,
+       (1 / 2 : K) * (cross (vsub (cornerPt c 7) (cornerPt c 4)) (vsub (cornerPt c 6) (cornerPt c 5))).2.1,
+       (1 / 2 : K) * (cross (vsub (cornerPt c 7) (cornerPt c 4)) (vsub (cornerPt c 6) (cornerPt c 5))).2.2) :=
+  bottomNormal_eq_diagonals c
+
+/-- On a box cell (whatever input form produced it): bottom centre = centre of the bottom
+rectangle, normal = `(0, 0, dx·dy)` (area of the face, pointing to larger depth); the first
+component is `getCellCenter` by definition. -/
+theorem bottom_normal_of_box [DecidableEq K] {c : Corners K} {x0 dx y0 dy z0 dz : K}
+    (h : IsBox c x0 dx y0 dy z0 dz) :
+    (bottomCenterNormal (1 / 2 : K) c).1 = cellCenter c ∧
+    (bottomCenterNormal (1 / 2 : K) c).2.1 = (x0 + dx / 2, y0 + dy / 2, z0 + dz) ∧
+    (bottomCenterNormal (1 / 2 : K) c).2.2 = (0, 0, dx * dy) :=
+  ⟨rfl, box_bottomCenterNormal h⟩
+
+end BottomNormal
+
+/-- Non-vacuity over ℚ: a sheared, non-planar bottom face. -/
+example :
+    let c : Corners ℚ := ⟨fun n => [0, 2, 0, 2, 1, 3, 1, 4].getD n 0, fun n => [0, 0, 3, 3, 0, 0, 3, 3].getD n 0,
+      fun n => [0, 0, 0, 0, 5, 5, 6, 7].getD n 0⟩
+    (GridTops.bottomCenterNormal (1 / 2 : ℚ) c).2.2 = (-3 / 2, -7 / 2, 15 / 2) := by
+  intro c
+  rw [bottom_normal_is_half_diagonal_cross]
+  simp [GridTops.cross, GridTops.vsub, GridTops.cornerPt, c]
+  norm_num
+
+/-- **`isValidCellGeomtry`** (any linear order, any `abs`, any threshold / separation): the answer
+is `true` exactly when every corner coordinate is below the threshold in absolute value and at
+least one of the four vertical edges is longer than the minimum separation. -/
+theorem cell_validity_rule {K : Type} [LinearOrder K] [Sub K] (abs : K → K) (thr minSep : K) (c : Corners K) :
+    GridTops.isValidCellGeometry abs thr minSep c = true ↔
+      ((∀ n, n < 8 → abs (c.X n) < thr ∧ abs (c.Y n) < thr ∧ abs (c.Z n) < thr) ∧
+       ∃ n, n < 4 ∧ minSep < c.Z (n + 4) - c.Z n) :=
+  GridTops.isValidCellGeometry_iff abs thr minSep c
+
+/-- Non-vacuity (ℤ): a wedge cell with one open edge is valid, the fully pinched one is not. -/
+example :
+    GridTops.isValidCellGeometry (fun x : Int => if x < 0 then -x else x) 1000 1
+      ⟨fun n => (n % 2 : Nat), fun n => (n / 2 % 2 : Nat), fun n => if n = 7 then 12 else 10⟩ = true ∧
+    GridTops.isValidCellGeometry (fun x : Int => if x < 0 then -x else x) 1000 1
+      ⟨fun n => (n % 2 : Nat), fun n => (n / 2 % 2 : Nat), fun _ => 10⟩ = false := by
+  decide
 
 end OpmVerif.Props.C13
